@@ -24,7 +24,7 @@ ASSUMPTIONS = [
     "tolerance 1e-30 relative for Decimal-vs-exact comparisons, as stated by the property",
 ]
 MIN_NONTRIVIAL = {"quick": 20000, "thorough": 400000}
-REQUIRED_LABELS = ["region.below", "region.inside", "region.above", "price.at_lower", "price.at_upper", "range.touch_min", "range.touch_max", "market.roundtrip"]
+REQUIRED_LABELS = ["region.below", "region.inside", "region.above", "price.at_lower", "price.at_upper", "range.touch_min", "range.touch_max", "market.roundtrip", "market.tick", "market.explicit", "market.default"]
 
 D = Decimal
 TOL = Fraction(1, 10**30)
@@ -218,9 +218,10 @@ def st_market(draw):
     big = lambda dec: st.builds(lambda m, e: m * 10**e, st.integers(1, 10**9), st.integers(max(0, dec - 6), 3 + dec))
     w0, w1 = draw(st.one_of(big(d0), big(d0), st_wei(d0))), draw(st.one_of(big(d1), big(d1), st_wei(d1)))
     bal_mode = draw(st.sampled_from(["ample", "exact", "ample", "short0", "short1"]))
-    explicit = draw(st.booleans())
+    explicit = draw(st.sampled_from([False, True, "tick"]))
     part = draw(st.sampled_from([None, None, 1, 2, 3]))
-    return {"d0": d0, "d1": d1, "fee": fee, "tl": tl, "tu": tu, "rk": rk, "q": q, "pk": pk, "u": u, "v": v, "w0": str(w0), "w1": str(w1), "bal": bal_mode, "explicit": explicit, "part": part}
+    tk = draw(st.sampled_from(["tl", "tu", "tl+1", "tu-1", "mid", "0", "0", "-1", "1"]))
+    return {"tk": tk, "d0": d0, "d1": d1, "fee": fee, "tl": tl, "tu": tu, "rk": rk, "q": q, "pk": pk, "u": u, "v": v, "w0": str(w0), "w1": str(w1), "bal": bal_mode, "explicit": explicit, "part": part}
 
 
 def body_market(case, ctx: Ctx):
@@ -236,11 +237,18 @@ def body_market(case, ctx: Ctx):
     broker, market = world.uni_static(d0, d1, q, case["fee"], tick=0, price=price, bal0=b0, bal1=b1)
     t0, t1 = market.token0, market.token1
     base_max, quote_max = market._convert_pair(a0, a1)
-    kw = {"sqrt_price_x96": s} if case["explicit"] else {}
-    s_eff = s if case["explicit"] else base_unit_price_to_sqrt_price_x96(price, d0, d1, q)
+    kw = {"sqrt_price_x96": s} if case["explicit"] is True else {}
+    s_eff = s if case["explicit"] is True else base_unit_price_to_sqrt_price_x96(price, d0, d1, q)
+    add_kw = dict(kw)
+    if case["explicit"] == "tick":
+        # the deposit price is given as an explicit tick (incl. 0 and -1) while the market itself stands at another price
+        tk = {"tl": tl, "tu": tu, "tl+1": tl + 1, "tu-1": tu - 1, "mid": (tl + tu) // 2, "0": 0, "-1": -1, "1": 1}[case.get("tk", "0")]
+        s_eff = _g(tk)
+        add_kw = {"tick": tk}
+        kw = {"sqrt_price_x96": s_eff}
     info = {**case, "s": str(s), "price": str(price)}
     try:
-        pos, base_used, quote_used, liq = market.add_liquidity_by_tick(tl, tu, base_max, quote_max, **kw)
+        pos, base_used, quote_used, liq = market.add_liquidity_by_tick(tl, tu, base_max, quote_max, **add_kw)
     except Exception as e:  # rejected (insufficient balance ...): atomicity is C04's business
         ctx.case(info, False, labels=[f"market.rejected.{type(e).__name__}"])
         return
@@ -289,7 +297,7 @@ def body_market(case, ctx: Ctx):
         ctx.check(close(end1, F(b1), tol), "market.wallet_restore", lambda: f"token1 wallet {b1} -> {end1}", info)
     else:
         ctx.check(abs(F(end1) - F(b1)) <= Fraction(1, 10**5) * F(b1), "market.wallet_restore", lambda: f"token1 wallet {b1} -> {end1} (snap)", info)
-    ctx.case(info, True, labels=["market.roundtrip", f"market.q{int(q)}", f"market.{'explicit' if case['explicit'] else 'default'}", f"market.price.{case['pk']}", "market.partial" if part else "market.full"] + (["market.snap"] if snapped0 or snapped1 else []))
+    ctx.case(info, True, labels=["market.roundtrip", f"market.q{int(q)}", f"market.{'tick' if case['explicit'] == 'tick' else 'explicit' if case['explicit'] else 'default'}", f"market.price.{case['pk']}", "market.partial" if part else "market.full"] + (["market.snap"] if snapped0 or snapped1 else []))
 
 
 BODIES = {"math": (st_math, body_math), "market": (st_market, body_market)}
